@@ -47,6 +47,7 @@ type AsrtSpec struct {
 	Audiences    []string   `json:"audiences"` // one AudienceRestriction each; nil: none
 	Attrs        []AttrSpec `json:"attrs,omitempty"`
 	SessionIndex string     `json:"session_index,omitempty"`
+	SessionNOA   *int64     `json:"session_noa_ms,omitempty"` // AuthnStatement SessionNotOnOrAfter (nil: absent)
 	NoAuthn      bool       `json:"no_authn,omitempty"`
 	Sign         bool       `json:"sign"`
 	SignKey      int        `json:"sign_key,omitempty"` // index into rsaKeys
@@ -210,6 +211,10 @@ func (a *AsrtSpec) toAssertion(t0 time.Time) *saml.Assertion {
 	if !a.NoAuthn {
 		as.AuthnStatements = []saml.AuthnStatement{{AuthnInstant: t0.UTC(), SessionIndex: a.SessionIndex,
 			AuthnContext: saml.AuthnContext{AuthnContextClassRef: &saml.AuthnContextClassRef{Value: "urn:oasis:names:tc:SAML:2.0:ac:classes:PasswordProtectedTransport"}}}}
+		if a.SessionNOA != nil {
+			t := t0.Add(ms(*a.SessionNOA)).UTC()
+			as.AuthnStatements[0].SessionNotOnOrAfter = &t
+		}
 	}
 	if len(a.Attrs) > 0 {
 		nst := 1
